@@ -1,0 +1,11 @@
+//go:build verif
+// +build verif
+
+// Contracts for the deductive verifier in /verif (govc). Comment-only: no executable code.
+package util
+
+//@ func GetShardID props C13
+//@   requires [n_range] 1 <= shardCount && shardCount <= 4294967295
+//@   modifies hashwritten
+//@   ensures [range] 0 <= result && result < shardCount
+//@   ensures [def] result == shardOf(value, shardCount)
